@@ -223,6 +223,8 @@ type Scenario struct {
 	FieldLoad func(f *types.Var) (AV, bool)
 	// CallResult gives an assumed abstract result for opaque calls (all executions).
 	CallResult func(n *Node) (AV, bool)
+	// InstrResult gives an assumed abstract result for non-call instructions (map lookups, receives ...; all executions).
+	InstrResult func(n *Node) (AV, bool)
 	// Marker (optional, with Start = the entry and AtEntry): an operation that, on any one of its executions, may
 	// deliver MarkerResult; the states after that are kept in a separate phase (ScnResult.ReachesAfterMarker), so
 	// "what can happen once this call has returned X, whatever happened before" is answered with the full
@@ -567,6 +569,13 @@ func (it *interp) transfer(n *Node, e env) {
 
 func (it *interp) eval(n *Node, v ssa.Value, e env) AV {
 	c := n.Ctx
+	if it.sc.InstrResult != nil {
+		if _, isCall := v.(*ssa.Call); !isCall {
+			if a, ok := it.sc.InstrResult(n); ok {
+				return a
+			}
+		}
+	}
 	switch x := v.(type) {
 	case *ssa.FieldAddr:
 		if b := it.val(c, x.X, e); b.K == avPtr {
@@ -1484,6 +1493,30 @@ func variadicValues(v ssa.Value) []ssa.Value {
 		if o == nil {
 			return nil
 		}
+	}
+	return out
+}
+
+// EdgeFeasible reports whether control can pass directly from node a to node b in the scenario (in any phase).
+func (r *ScnResult) EdgeFeasible(a, b *Node) bool {
+	for p, succs := range r.edges {
+		if p.n != a {
+			continue
+		}
+		for _, s := range succs {
+			if s.n == b {
+				return true
+			}
+		}
+	}
+	return false
+}
+
+// ReachedNodes: the set of nodes reachable in the scenario (the start node included).
+func (r *ScnResult) ReachedNodes() map[*Node]bool {
+	out := map[*Node]bool{}
+	for p := range r.Reach {
+		out[p.n] = true
 	}
 	return out
 }
